@@ -245,7 +245,7 @@ def r7(text, ctx):
                 parts.append('"%s"' % p)
             if idx < len(argtxt) - 1:
                 a = argtxt[idx + 1].strip()
-                parts.append('verif_as_str(%s)' % a)
+                parts.append('&*(%s)' % a)
         new = 'verif_concat%d(%s)' % (len(parts), ', '.join(parts))
         text = text[:toks[i].start] + new + text[toks[k].end:]
         n += 1
@@ -438,4 +438,69 @@ def r4(text, ctx):
         n += c
         body, c = re.subn(r'\bself\s*\.\s*%s\s*\((?!st\b)' % re.escape(d), 'self.%s(st, ' % d, body)
         n += c
+    return sig + '\x00' + body, n
+
+
+@rule('R19', '`let X: Vec<_> = M.iter().filter_map(|PAT| { B }).collect();` -> `let mut X = Vec::new(); for PAT in M.iter() { if let Some(v) = LIFTED(args) { X.push(v); } }` '
+             'with the closure body B lambda-lifted verbatim into a sibling function (captured variables become parameters, by-mut captures are dereferenced); '
+             'ruleargs: `R19 sig <fn signature>`, `R19 call <call expr>`, `R19 deref <ident>` (definition of filter_map + collect; Verus rejects closures capturing &mut)')
+def r19(text, ctx):
+    if '\x00' not in text:
+        return text, 0
+    args = ctx.rule_args.get('R19', [])
+    sigs = [a[4:].strip() for a in args if a.startswith('sig ')]
+    calls = [a[5:].strip() for a in args if a.startswith('call ')]
+    derefs = [a[6:].strip() for a in args if a.startswith('deref ')]
+    if not sigs:
+        return text, 0
+    sig, body = text.split('\x00')
+    toks = lex(body)
+    n = 0
+    for i, t in enumerate(toks):
+        if t.kind == 'ident' and t.text == 'filter_map' and toks[i - 1].text == '.' and toks[i + 1].text == '(':
+            close = match_close(toks, i + 1)
+            # must be followed by .collect()
+            if not (toks[close + 1].text == '.' and toks[close + 2].text == 'collect'):
+                raise Undecided('R19: filter_map not followed by collect')
+            # statement start: scan back to `let`
+            j = i
+            while j >= 0 and not (toks[j].kind == 'ident' and toks[j].text == 'let'):
+                j -= 1
+            if j < 0:
+                raise Undecided('R19: no let')
+            name = toks[j + 1].text
+            # receiver: from after '=' to the '.' before filter_map
+            k = j
+            while toks[k].text != '=':
+                k += 1
+            recv = body[toks[k + 1].start:toks[i - 1].start].strip()
+            # closure: |PAT| { B }
+            c0 = i + 2
+            if toks[c0].text != '|':
+                raise Undecided('R19: closure expected')
+            c1 = c0 + 1
+            while toks[c1].text != '|':
+                if toks[c1].text in ('(', '['):
+                    c1 = match_close(toks, c1)
+                c1 += 1
+            pat = body[toks[c0].end:toks[c1].start].strip()
+            if toks[c1 + 1].text != '{':
+                raise Undecided('R19: block closure expected')
+            b1 = match_close(toks, c1 + 1)
+            cbody = body[toks[c1 + 1].start:toks[b1].end]
+            # statement end ';'
+            e = close
+            while toks[e].text != ';':
+                e += 1
+            for d in derefs:
+                ct = lex(cbody)
+                cbody = toks_replace(cbody, [(x.start, x.end, '(*%s)' % d) for x in ct if x.kind == 'ident' and x.text == d])
+            lifted_name = re.search(r'fn\s+([A-Za-z0-9_]+)', sigs[0]).group(1)
+            ctx.lifted[lifted_name] = (sigs[0], cbody)
+            elem = re.search(r'->\s*Option\s*<(.*)>\s*$', sigs[0].strip()).group(1).strip()
+            new = ('let mut %s: Vec<%s> = Vec::new();\n        for %s in %s {\n            if let Some(verif_item) = %s { %s.push(verif_item); }\n        }'
+                   % (name, elem, pat, recv, calls[0], name))
+            body = body[:toks[j].start] + new + body[toks[e].end:]
+            n += 1
+            break
     return sig + '\x00' + body, n
